@@ -232,10 +232,13 @@ def gen_tags(rng, wf=True):
     for _ in range(rng.choice([0, 0, 1, 1, 2, 3, 5])):
         name = rng.choice(["e", "p", "t", "d", "'", "\\", '"', "\x00", "é", "\U0001F600", "expiration", "delegation", ""])
         t = [name] + [rng.choice(HOSTILE[:42]) for _ in range(rng.choice([0, 1, 1, 1, 2, 3]))]
+        if rng.random() < 0.15:
+            # integer tag items are admitted by the relay (its own test-suite stores ["expiration", 1672329427])
+            t.append(rng.choice([0, 1, -5, 1672329427, 2 ** 31, 2 ** 53 + 1, 2 ** 63 - 1, -2 ** 63]))
         tags.append(t)
     if not wf:
         kind = rng.random()
-        bad = rng.choice([True, False, None, 0, 1, -5, 2 ** 64, 1.5, 1e100, ["a", 1], [], ["x", ["y"]], [None, True]])
+        bad = rng.choice([True, False, None, 1.5, 1e100, ["a", 1], [], ["x", ["y"]], [None, True]])
         if kind < 0.7 or not tags:
             tags.append(["e", bad] if rng.random() < 0.7 else [bad])
         else:
@@ -479,7 +482,7 @@ def gen_roundtrip_events(rng, n, backend):
         kind = rng.choice([1, 1, 1, 4, 7, 40, 1000, 9999, 65535] + ([2 ** 32 - 1] if backend == "sql" else []))
         tags = gen_tags(rng)
         # keep index keys of the LMDB backend within their limits: long tag values are exercised through content
-        tags = [[x if len(x) < 200 else x[:150] for x in t] for t in tags]
+        tags = [[x if not isinstance(x, str) or len(x) < 200 else x[:150] for x in t] for t in tags]
         tags = [t for t in tags if not (t[0] in ("expiration", "delegation"))]   # their semantics belong to C17 / C03
         content = rng.choice(HOSTILE)
         tags.append(["nonce", str(i)])
@@ -490,7 +493,7 @@ def gen_roundtrip_events(rng, n, backend):
 def nonwf_events(rng):
     """validly signed events whose tags contain non-string items / are not arrays of arrays of strings"""
     out = []
-    for tags in ([["e", True]], [["e", None]], [["e", 1]], [["t", ["a", "b"]]], [[1.5]], ["ab"], [["e", "x"], [False]], [[]], [["p", {"a": 1}]]):
+    for tags in ([["e", True]], [["e", None]], [["t", ["a", "b"]]], [[1.5]], ["ab"], [["e", "x"], [False]], [[]], [["p", {"a": 1}]]):
         try:
             out.append(mk_signed(0, 1, env.NOW - 50 - len(out), tags, "nonwf %d" % len(out)))
         except Exception:
@@ -559,7 +562,7 @@ def suite_roundtrip(tier, rng):
         frames, codec_cases, codec_owner = [], [], []
         for r in recs:
             d = r["submitted"]
-            wf = all(isinstance(t, list) and len(t) > 0 and all(isinstance(x, str) for x in t) for t in d["tags"])
+            wf = all(isinstance(t, list) and len(t) > 0 and all(isinstance(x, str) or type(x) is int for x in t) for t in d["tags"])
             esc = json.dumps(d["content"], ensure_ascii=False) != '"%s"' % d["content"] or any(json.dumps(x, ensure_ascii=False) != '"%s"' % x for t in d["tags"] if isinstance(t, list) for x in t if isinstance(x, str))
             s.case({"backend": backend, "content": d["content"][:40], "tags": str(d["tags"])[:80]}, nontrivial=esc)
             s.count("%s_%s_%s" % (backend, "wf" if wf else "nonstring_tags", "accepted" if r["accepted"] else "refused"))
